@@ -152,3 +152,79 @@ def r07e(ctx):
             else:
                 ctx.bad(cid, mod.loc(node), f"`{unparse(node)}` labels an unnamed input with the internal placeholder {ph!r}, and nothing in {fn.name} translates it back: the computed result and the optimized plan are named {ph!r} although the collection declared the user's (missing / falsy) name - the placeholder leaks into to_frame / reset_index / concat / to_parquet column labels")
     ctx.floor("placeholder labels introduced by lowerings", n, 2)
+
+
+# ---------------------------------------------------------------------------------------------
+# R07f
+# ---------------------------------------------------------------------------------------------
+
+R07F_EXCEPTIONS = {
+    "_shuffle.Shuffle": "ShuffleBase._meta is the input's meta with the index reset when ignore_index is set: same columns, dtypes and container",
+    "_shuffle.ShuffleBase": "see _shuffle.Shuffle",
+    "_shuffle.RearrangeByColumn": "see _shuffle.Shuffle",
+}
+_META_PRESERVING_WRAPPERS = ("Repartition", "RepartitionDivisions", "RepartitionToFewer", "RepartitionToMore")
+
+
+def _meta_kind(model, c):
+    pv = c.provider("_meta")
+    if pv is None or pv.kind == "attr":
+        return "none", None
+    rets = [ast.unparse(r.value) for r in ast.walk(pv.node) if isinstance(r, ast.Return) and r.value is not None]
+    passthrough = bool(rets) and all(r in ("self.frame._meta", "self.frame._meta.copy()") for r in rets)
+    return ("passthrough" if passthrough else "computed"), pv
+
+
+@rule(
+    "R07f",
+    ["C07", "C17"],
+    """THE NODE A LOWERING RETURNS DECLARES THE SCHEMA OF THE NODE IT REPLACES: after lowering, the physical node is what optimize(),
+    persist() and from_graph read the schema from. If the logical class COMPUTES its `_meta` (an aggregation that changes columns, dtypes
+    or the container) and its `_lower` returns `K(<the same input, possibly repartitioned>, ...)` where K._meta just passes the input's
+    meta through, the optimized / persisted collection declares the INPUT's schema: df.resample('3h').size().optimize() was a
+    two-column DataFrame, a persisted ohlc() a Series holding frames; the single-partition rolling path declared int64 for float
+    results.""",
+)
+def r07f(ctx):
+    from sa import flow
+
+    model = ctx.model
+    n = 0
+    for L in model.expr_classes():
+        lw = L.members.get("_lower")
+        if lw is None or lw.kind == "attr":
+            continue
+        lk, lpv = _meta_kind(model, L)
+        if lk != "computed":
+            continue
+        defs = flow.Defs(lw.node)
+        for p in flow.returns(lw.node):
+            v = p.stmt.value
+            if not (isinstance(v, ast.Call) and isinstance(v.func, ast.Name)):
+                continue
+            r = model.resolve_name(L.module, v.func.id)
+            if not (r and r[0] == "class" and model.is_expr(r[1])):
+                continue
+            K = r[1]
+            kk, kpv = _meta_kind(model, K)
+            n += 1
+            if kk != "passthrough":
+                continue
+            first = v.args[0] if v.args else next((kw.value for kw in v.keywords if kw.arg == "frame"), None)
+            if first is None:
+                continue
+            base = defs.expand(first, at=p.stmt)
+            for _ in range(3):
+                if isinstance(base, ast.Call) and isinstance(base.func, ast.Name) and base.func.id in _META_PRESERVING_WRAPPERS and base.args:
+                    base = defs.expand(base.args[0], at=p.stmt)
+            same_input = ast.unparse(base) == "self.frame"
+            if isinstance(base, ast.Name):
+                same_input = any(ast.unparse(d.value).startswith(("self.frame", "Repartition(self.frame", "Repartition(frame")) or ast.unparse(d.value) == "self.frame" for d in defs.reaching(base.id, p.stmt) if d.value is not None)
+            cid = f"{L.qual}._lower->{K.name}:declared-schema"
+            if not same_input:
+                ctx.ok(cid, L.module.loc(p.stmt), f"{K.name} passes through the meta of `{ast.unparse(first)[:40]}`, which is not the logical node's own input")
+            elif L.qual in R07F_EXCEPTIONS:
+                ctx.exempt(cid, L.module.loc(p.stmt), R07F_EXCEPTIONS[L.qual])
+            else:
+                ctx.bad(cid, kpv.cls.module.loc(kpv.node), f"{L.qual} computes its _meta ({lpv.cls.qual}._meta), but {L.name}._lower returns {K.qual}(<its own input>, ...) whose _meta is `self.frame._meta`: once lowered, the plan declares the schema of the INPUT (other columns / dtypes / container than the aggregation produces) - optimize() changes the declared schema and persist() freezes the wrong one")
+    ctx.floor("lowerings that return a constructed node", n, 25)
